@@ -47,6 +47,16 @@ def assigned_names(nodes) -> set:
     return names
 
 
+AUTO_KINDS = {
+    "dict": lambda v: z3.And(V.is_dict(v), Val.dsize(v) >= 0),
+    "list": lambda v: V.is_list(v),
+    "tuple": lambda v: V.is_tuple(v),
+    "str": lambda v: V.is_str(v),
+    "int": lambda v: V.is_int(v),
+    "bool": lambda v: V.is_bool(v),
+}
+
+
 class MaybeUnbound:
     """A local assigned in a loop body but unbound when the loop was entered: at an arbitrary iteration it
     either still is unbound or holds a value from an earlier iteration.  Decided lazily at the first read."""
@@ -544,7 +554,22 @@ class Exec(Interp):
         for nm in assigned_names(s.body + ([s.target] if hasattr(s, "target") else [])):
             wset.add(("local", self.frame.key, nm))
         self.ctx.loop_writes.setdefault(key, set()).update(wset)
+        # inferred type-stability invariants (Houdini): a local of this frame whose value at loop entry has a definite
+        # kind keeps that kind, unless a back edge refutes it (then the candidate is dropped and the function re-explored)
+        auto = []
+        for cell in sorted(wset, key=repr):
+            if cell[0] == "local" and cell[1] == self.frame.key and cell[2] in self.frame.vars:
+                v0 = self.frame.vars[cell[2]]
+                if isinstance(v0, MaybeUnbound) or not z3.is_expr(v0) or cell[2] == iname:
+                    continue
+                kd = V.ctor_name(z3.simplify(v0))
+                if kd in AUTO_KINDS and ("refuted", self.frame.key, cell[2], kd) not in wset:
+                    auto.append((cell[2], kd))
         self.havoc(wset, keep={iname} if seq is not None else set())
+        for nm, kd in auto:
+            self.assume(AUTO_KINDS[kd](self.frame.vars[nm]))
+        self.loop_auto = getattr(self, "loop_auto", {})
+        self.loop_auto[key] = (self.frame.key, auto)
         if seq is not None:
             i = self.fresh_int("i")
             self.assume(z3.And(i >= 0, i <= z3.Length(seq)))
@@ -615,6 +640,16 @@ class Exec(Interp):
         if seq is not None:
             self.frame.vars[iname] = V.VInt(z3.simplify(Val.i(self.frame.vars[iname]) + 1))
         self._loop_inv(inv, s, "back", assert_=True, seq=seq)
+        # inferred candidates must be re-established here; one that is not is recorded as refuted (write-set channel)
+        from . import prelude
+        key = self.loop_key(s)
+        fk, auto = getattr(self, "loop_auto", {}).get(key, (None, []))
+        for nm, kd in auto:
+            v = self.frame.vars.get(nm) if self.frame.key == fk else None
+            ok = v is not None and not isinstance(v, MaybeUnbound) and \
+                (V.ctor_name(z3.simplify(v)) == kd or prelude.entails(self, AUTO_KINDS[kd](v)))
+            if not ok:
+                self.write_recorders[-1][1].add(("refuted", fk, nm, kd))
         # record writes before the path stops
         rec = self.write_recorders[-1]
         self._merge_writes(rec)
@@ -623,7 +658,15 @@ class Exec(Interp):
     def _loop_inv(self, inv, s, phase, assert_, seq=None):
         if inv is None:
             return
-        clauses = inv(self, phase)
+        self.loop_seq = seq          # the sequence being iterated (None for while / iterator loops)
+        try:
+            clauses = inv(self, phase)
+        except (Unsupported, PathEnd, PyRaise, EngineError):
+            raise
+        except Exception as ex:
+            # an invariant written for another shape of the loop (e.g. it names a local that no longer exists): the
+            # function's obligations are undecided, never a violation or a crash
+            raise Unsupported(f"loop invariant not applicable to the current code ({type(ex).__name__}: {ex})", s)
         for cl in clauses:
             name, cond = cl[0], cl[1]
             meta = cl[2] if len(cl) > 2 else {}
@@ -701,6 +744,24 @@ class Exec(Interp):
             key = self.eval(target.slice)
             new = prelude.set_item(self, cont, key, val, target)
             self.write_back(target.value, new)
+        elif isinstance(target, (ast.Tuple, ast.List)) and any(isinstance(t, ast.Starred) for t in target.elts):
+            from . import prelude
+            stars = [k for k, t in enumerate(target.elts) if isinstance(t, ast.Starred)]
+            if len(stars) != 1:
+                raise Unsupported("several starred targets", target)
+            seq, _k = prelude.seq_and_kind(self, val, target)
+            if seq is None:
+                raise Unsupported("starred unpacking of a non-sequence", target)
+            before, after = target.elts[:stars[0]], target.elts[stars[0] + 1:]
+            n, need = z3.Length(seq), len(target.elts) - 1
+            if not self.choose(n >= need, "star_unpack_len"):
+                self.throw("ValueError", "not enough values to unpack")
+            for j, t in enumerate(before):
+                self.assign(t, z3.simplify(seq[j]))
+            self.assign(target.elts[stars[0]].value,
+                        V.VList(z3.simplify(z3.Extract(seq, z3.IntVal(len(before)), n - need))))
+            for j, t in enumerate(after):
+                self.assign(t, z3.simplify(seq[n - len(after) + j]))
         elif isinstance(target, (ast.Tuple, ast.List)):
             from . import prelude
             elems = prelude.unpack(self, val, len(target.elts), target)
@@ -724,6 +785,16 @@ class Exec(Interp):
             cont = self.eval(expr.value)
             key = self.eval(expr.slice)
             self.write_back(expr.value, prelude.set_item(self, cont, key, new, expr))
+        elif isinstance(expr, ast.Call) and isinstance(expr.func, ast.Attribute) and expr.func.attr == "setdefault" \
+                and len(expr.args) in (1, 2) and not expr.keywords:
+            # d.setdefault(k, dflt) returns the container stored at d[k]: mutating it is d[k] = new
+            # (the call itself was evaluated already and has inserted the default when the key was absent)
+            from . import prelude
+            cont = self.eval(expr.func.value)
+            if V.ctor_name(z3.simplify(cont)) != "dict" and not prelude.entails(self, V.is_dict(cont)):
+                raise Unsupported("mutation of the result of a non-dict setdefault", expr)
+            key = self.eval(expr.args[0])
+            self.write_back(expr.func.value, prelude.set_item(self, cont, key, new, expr))
         elif isinstance(expr, ast.Call):
             raise Unsupported("mutation of a container returned by a call", expr)
         else:
